@@ -2,7 +2,7 @@
     [--no-color] set the same field, and the other presentation flags reach the
     reporter configuration unchanged, whatever else [load] does. *)
 From HP Require Import Base.Bytes Base.Utf8 Base.Num Model.Scanner Model.Parser Model.Elements Model.Resolver
-  Model.Dates Model.Tree Model.Writer Model.Reporters Model.Cli.
+  Model.Dates Model.Tree Model.Writer Model.Reporters Model.Cli Spec.PresentationSpec.
 
 Lemma load_rc : forall (w : world) (i : invocation) (op : options),
   load w i = inr op ->
@@ -57,19 +57,6 @@ Qed.
 
 (** the colour field is the only thing of [load]'s result that depends on the two
     [--no-color] flags, and it depends on their disjunction only *)
-Definition with_no_color (i : invocation) (g l : bool) : invocation :=
-  {| i_f_db := i_f_db i; i_e_db := i_e_db i; i_f_log := i_f_log i; i_e_log := i_e_log i;
-     i_f_fmt := i_f_fmt i; i_e_fmt := i_e_fmt i; i_f_depth := i_f_depth i; i_e_depth := i_e_depth i;
-     i_f_today := i_f_today i; i_f_config := i_f_config i; i_e_config := i_e_config i;
-     i_no_database := i_no_database i;
-     i_g_begin := i_g_begin i; i_g_end := i_g_end i; i_l_begin := i_l_begin i; i_l_end := i_l_end i;
-     i_g_no_color := g; i_l_no_color := l;
-     i_single_food := i_single_food i; i_single_element := i_single_element i;
-     i_group_food := i_group_food i; i_csv := i_csv i; i_no_totals := i_no_totals i;
-     i_totals_only := i_totals_only i; i_shorten := i_shorten i; i_old := i_old i; i_template := i_template i;
-     i_collapse := i_collapse i; i_collapse_last := i_collapse_last i; i_desc := i_desc i; i_silent := i_silent i;
-     i_cmd := i_cmd i |}.
-
 Theorem no_color_level_irrelevant : forall (w : world) (i : invocation),
   load w (with_no_color i true false) = load w (with_no_color i false true)
   /\ load w (with_no_color i true true) = load w (with_no_color i false true).
